@@ -61,7 +61,7 @@ ASSUMPTIONS = [
 PROBES = [
     "crash_in_setup", "crash_in_getitem", "crash_in_save", "crash_between_save_and_manifest",
     "crash_after_manifest", "soft_interrupt", "torn_write", "multi_cycle", "resume_skipped_prefix", "stale_dir",
-    "workers_sim", "workers_real_dataloader", "prefix_ids", "dither_seeded", "small_manifest_buffer", "all_done_before_crash",
+    "workers_sim", "workers_real_dataloader", "fresh_interpreter_other_hashseed", "prefix_ids", "dither_seeded", "small_manifest_buffer", "all_done_before_crash",
 ]
 FAULT_KINDS = ["HARD_KILL", "SOFT_INTERRUPT", "TORN_WRITE", "STALE_DIR", "MULTI"]
 EXHAUSTIVE = {}
@@ -260,7 +260,15 @@ def generate(rng, tier, k):
             run["num_workers"] = rng.choice((0, 1, 2, 3))
         runs.append(run)
     runs.append({"fault": None, "ambient": rng.randrange(1 << 20)})
-    if rng.random() < (0.04 if tier == "quick" else 0.08):
+    if rng.random() < 0.012:
+        # fresh interpreters with their own string-hash salt (what separate invocations of the command really are):
+        # a kill after k feature files, then the re-run, each with another PYTHONHASHSEED
+        runs = [{"cold": True, "hashseed": rng.randrange(1, 4000), "kill_after_saves": rng.randrange(1, nutt + 1),
+                 "ambient": rng.randrange(1 << 20)},
+                {"cold": True, "hashseed": rng.randrange(4000, 8000), "ambient": rng.randrange(1 << 20)}]
+        args["num_workers"] = 0
+        stale = []
+    elif rng.random() < (0.04 if tier == "quick" else 0.08):
         # cross-check of the simulated pool: the genuine multi-process DataLoader, no crash faults
         knobs["pool"] = "real"
         args["num_workers"] = rng.choice((1, 2, 3))
@@ -406,6 +414,8 @@ def _run(scn, d, res, tr):
     completed_ever = []  # utterances whose save_end was observed in any run, in order
     for ri, run in enumerate(runs):
         fault = run.get("fault")
+        if run.get("cold") and run.get("kill_after_saves") is not None:
+            fault = {"kind": "HARD_KILL", "scope": "cold", "after_saves": run["kill_after_saves"]}
         W = run.get("num_workers", scn["args"].get("num_workers", 0))
         argv, _ = _prepare(scn, d, "out", with_manifest=True, num_workers=W)
         listed_before, _tail = common.manifest_ids(man)
@@ -417,7 +427,14 @@ def _run(scn, d, res, tr):
             res.probe("workers_sim")
         elif W > 0:
             res.probe("workers_real_dataloader")
-        r = child.run_tool("torch", argv, d, fault, knobs)
+        if run.get("cold"):
+            res.probe("fresh_interpreter_other_hashseed")
+            r = child.run_tool_cold("torch", argv, d, run["hashseed"], knobs["ambient_seed"], run.get("kill_after_saves"))
+            if r["exit"] == child.EXIT_HARD:
+                r["killed"] = ("HARD_KILL", 0)
+                res.fault("HARD_KILL")
+        else:
+            r = child.run_tool("torch", argv, d, fault, knobs)
         lines_total += (r["killed"][1] if r["killed"] else (r["points"] or 0))
         ev = [(n, u) for n, u, c in r["events"] if n in ("read", "save_begin", "save_end", "getitem", "exception")]
         if not (W > 0 and knobs.get("pool") == "real"):
